@@ -43,8 +43,8 @@ def exactCodec : NumCodec := ⟨exactFmt, readF64⟩
 
 /-- **printing then parsing a document gives the document back** (numbers as their tokens, strings with every
 escape, nested arrays and objects in order) -/
-theorem json_roundtrip (j : J) (h : j.wf) : parse (print j) = some j := by
-  sorry
+theorem json_roundtrip (j : J) (h : j.wf) : parse (print j) = some j :=
+  parse_print j h
 example : (J.obj [(ascii "a", .arr [.num "-12".toList, .str [34, 10, 0xC3, 0xA9], .null]), (ascii "b", .bool true)]).wf := by
   sorry
 
@@ -53,15 +53,15 @@ example : (J.obj [(ascii "a", .arr [.num "-12".toList, .str [34, 10, 0xC3, 0xA9]
 /-- **rounding a representable value is the identity**: the correctly rounded conversion returns the pattern whose
 exact value it was given -/
 theorem round_value (f : Fmt) (hm : 1 ≤ f.mb) (he : 2 ≤ f.eb) (m : Nat) (h : m < f.inf) :
-    f.round (f.value m).1 (f.value m).2 = m := by
-  sorry
+    f.round (f.value m).1 (f.value m).2 = m :=
+  Fmt.round_value f hm he m h
 
 /-- **widening to binary64 and narrowing back is the identity** on every finite pattern of the four formats,
 whichever way `half` narrows -/
 theorem narrow_widen (how : Narrow) (f : Fmt) (hf : f = f16 ∨ f = bf16 ∨ f = f32 ∨ f = f64) (b : Nat)
     (hb : b < 2 ^ f.bits) (hfin : f.isFinite b = true) :
-    narrow how f (convertBits f f64 b) = b := by
-  sorry
+    narrow how f (convertBits f f64 b) = b :=
+  FillMeta.narrow_widen how f hf b hb hfin
 
 /-- the assumption on the number codec is satisfiable: the exact decimal expansion read by the correctly rounded
 reader -/
@@ -72,8 +72,8 @@ theorem exactCodec_good : NumCodec.Good exactCodec := by
 infinities, the canonical NaN, and every other NaN payload and sign (as a hex string) -/
 theorem float_nonfinite_roundtrip (nc : NumCodec) (how : Narrow) (f : Fmt)
     (hf : f = f16 ∨ f = bf16 ∨ f = f32 ∨ f = f64) (b : Nat) (hb : b < 2 ^ f.bits) (hnf : f.isFinite b = false) :
-    metaToFloat nc how f (floatToMeta nc f b) = some b ∧ ∃ s, floatToMeta nc f b = .str s := by
-  sorry
+    metaToFloat nc how f (floatToMeta nc f b) = some b ∧ ∃ s, floatToMeta nc f b = .str s :=
+  float_nonfinite nc how f hf b hb hnf
 
 /-- **every pattern of a float format round-trips through metadata** (finite ones through the number codec) -/
 theorem float_roundtrip (nc : NumCodec) (hnc : NumCodec.Good nc) (how : Narrow) (f : Fmt)
